@@ -32,9 +32,14 @@
      - mode switches (MODES): [denote] follows `>> [mode]: ..` / `>> [define]: ..` / `>> [duplicate]: ..`
        entries - components mode (a step block lists components, is no step), steps mode (every component
        without `+` is a reference), duplicate-reference mode (a repeated name is a reference), back to
-       all / new - and the two theorems above cover them; the one switch still outside the class is
-       `text` (there the collector copies source ranges, about which the printer theorems are silent);
-       C01_modes_example switches four times and is replayed on the implementation;
+       all / new - and the two theorems above cover them, text mode included: there the collector copies the
+       source range of each component, and C01_events_sources shows that in a printed document this range is
+       the printed component (a component event spans exactly the tokens its parser consumed: C05's frame
+       lemma), whose copy without comments is the component without its comment tokens (C01_component_copy,
+       from the C17 token-run lemma; hypothesis: `-`, `[`, backslash break words and blanks in U, true of the
+       implementation's classification);
+       C01_modes_example switches four times, C01_text_mode_example reads a commented component in text
+       mode; both are replayed on the implementation;
        the metadata map is the `>>` entries that are not mode switches, inserted in order
        (C01_metadata_roundtrip, C01_metadata_entries_plain);
      - front matter: a document printed behind `---` YAML `---` yields the YAML event with exactly
@@ -44,9 +49,9 @@
    The printers (Model/Printer.v) and [denote] (Model/Denote.v) are definitions of these statements,
    not models of Rust code. *)
 From CL Require Import Base.StrLemmas Model.Lexer Model.Parser Proofs.LexerProofs Model.Printer Proofs.RoundTrip
-  Proofs.RoundTripComp Proofs.RoundTripDoc Proofs.RoundTripPrintDoc Model.Denote Model.EventBridge Proofs.RoundTripAnalysis.
+  Proofs.RoundTripComp Proofs.RoundTripDoc Proofs.RoundTripPrintDoc Model.Denote Model.EventBridge Proofs.RoundTripSpans Proofs.RoundTripAnalysis.
 From CL Require Proofs.MetaIterProofs.
-From CL Require Gen.CharClass.
+From CL Require Gen.CharClass Proofs.MaskProofs Proofs.MaskGen Proofs.EditTextFrame.
 From CL Require Model.Events Model.Analysis Model.MetaMap Proofs.ParseTotal.
 
 (* ------------------------------------------------------------------ (a) lexer *)
@@ -275,8 +280,8 @@ Print Assumptions C01_no_fence_no_frontmatter.
    [unit_class]), source text and extension record x of the pass: the collector model with the current code
    returns the recipe [denote ci d] and reports no error.  [adoc_ok] (Model/Denote.v, decidable given the
    oracles) states the class: while MODES is on, a `>> [mode]`/`[define]`/`[duplicate]` entry has one of its
-   documented values (anything else is an error diagnostic of the code) and is not the switch to `text`
-   (excluded: see the header of Model/Denote.v); with INLINE_QUANTITIES the
+   documented values (anything else is an error diagnostic of the code); outside text mode (where a step block
+   is not analysed), with INLINE_QUANTITIES the
    oracle for find_inline_quantity consumes text (it returns a strict suffix in the code; [iq_split] does not
    run out of one unit of fuel per character); with ADVANCED_UNITS every timer quantity is a number
    with a time unit; every `&(..)` is on an ingredient, without `@ - +`, and its target exists; every other
@@ -285,12 +290,53 @@ Print Assumptions C01_no_fence_no_frontmatter.
    2^32 - 1 steps (the u32 step counter).  What [denote] says is in the header of Model/Denote.v. *)
 Theorem C01_analyse_roundtrip :
   forall ci yaml_ok find_iq unit_class input (x : Analysis.aext) (cfg : pcfg) (d : list block) (evs : list pevent),
-    map ev_proj evs = doc_events d -> Forall (fun b => block_ok cfg b = true) d ->
+    map ev_proj evs = doc_events d ->
+    (text_reached (Analysis.x_modes x) d mode0 = true -> Forall2 (src_ok input) evs (doc_srcs d) /\ strips d) ->
+    Forall (fun b => block_ok cfg b = true) d ->
     adoc_ok ci find_iq unit_class x d = true ->
     Analysis.analyse ci yaml_ok find_iq unit_class input x Analysis.cfgF (abstract_events evs)
     = Done (Some (denote ci find_iq (Analysis.x_inline x) (Analysis.x_modes x) d), true).
 Proof. exact analyse_denote. Qed.
 Print Assumptions C01_analyse_roundtrip.
+
+(* The source of every component of a printed document: beside the intended events (C01_events_roundtrip), the
+   span of the event of each component cuts out of the printed text exactly the printed component
+   (`self.input[span.range()]` of in_text).  [doc_srcs d] lists, event by event, the printed tokens of the
+   component the event stands for. *)
+Theorem C01_events_sources :
+  forall (U : N -> ucls) (cfg : pcfg) (d : list block) (tp : dtape),
+    doc_ok U cfg d tp = true ->
+    exists evs, events U cfg (print_doc d tp) = Done evs /\ map ev_proj evs = doc_events d /\
+      Forall2 (src_ok (print_doc d tp)) evs (doc_srcs d).
+Proof. exact events_print_doc_src. Qed.
+Print Assumptions C01_events_sources.
+
+Theorem C01_frontmatter_events_sources :
+  forall (U : N -> ucls) (cfg : pcfg) (y : str) (ft : fmtape) (d : list block) (tp : dtape),
+    fm_doc_ok U cfg y ft d tp = true ->
+    exists evs, events U cfg (print_fm_doc y ft d tp) = Done evs /\ map ev_proj evs = fm_doc_events y d /\
+      Forall2 (src_ok (print_fm_doc y ft d tp)) evs (None :: doc_srcs d).
+Proof. exact events_print_fm_doc_src. Qed.
+Print Assumptions C01_frontmatter_events_sources.
+
+(* what [src_ok] says *)
+Theorem C01_src_ok_spec :
+  forall (src : str) (e : pevent) (p : list ptok),
+    src_ok src e (Some p) <->
+    exists sp, EditTextFrame.comp_span e = Some sp /\ Analysis.byte_slice src sp = Some (unlex p).
+Proof. intros. reflexivity. Qed.
+Print Assumptions C01_src_ok_spec.
+
+(* The copy without comments (in_text after 200c896 re-lexes the range and drops the comment tokens): for
+   adjacent printed tokens it is the text of the tokens that are not comments.  Hypothesis on U: the characters
+   `-`, `[` and backslash are neither word characters nor blanks (Proofs/MaskGen.v: true of the classification
+   generated from the implementation). *)
+Theorem C01_component_copy :
+  forall (U : N -> ucls),
+    (forall c, MaskProofs.special c = true -> is_word_char U c = false /\ is_lex_ws U c = false) ->
+    forall p : list ptok, adjacent_ok U p = true -> Analysis.strip_comments (unlex p) = written p.
+Proof. exact strip_printed. Qed.
+Print Assumptions C01_component_copy.
 
 (* What [denote] means by "the definition a `&` component refers to" ([find_def], used by [add_comp] and
    [ref_ok]): the entry j is a definition whose folded name equals the folded name looked up, and no later
@@ -304,15 +350,29 @@ Proof. exact find_def_spec. Qed.
 Print Assumptions C01_reference_target.
 
 (* Print, then parse: the whole pipeline model of CooklangParser::parse on the printed text returns the
-   denotation, valid.  Partial: of the printed documents without error diagnostic, the class [adoc_ok] above
-   leaves out exactly those that switch to text mode (`>> [mode]: text` with MODES on); front matter: section (h). *)
+   denotation, valid - for every printed document that the code reads without error diagnostic ([adoc_ok]), every
+   mode included.  Partial with respect to the statement of C01 only in this: the spellings are those of the
+   document printer (front matter: section (h); no blank lines before a front matter, no layout the printer
+   does not produce), inline quantities are counted (their values are the converter oracle's), and U satisfies
+   the hypothesis of C01_component_copy (needed in text mode only; it holds for the implementation's
+   classification: C01_parse_print_shipped). *)
 Theorem C01_parse_print_partial :
   forall (U : N -> ucls) (cfg : pcfg) ci yaml_ok find_iq unit_class (x : Analysis.aext) (d : list block) (tp : dtape),
+    (forall c, MaskProofs.special c = true -> is_word_char U c = false /\ is_lex_ws U c = false) ->
     doc_ok U cfg d tp = true -> adoc_ok ci find_iq unit_class x d = true ->
     ParseTotal.parse_model U cfg ci yaml_ok find_iq unit_class x (print_doc d tp)
     = Done (Some (denote ci find_iq (Analysis.x_inline x) (Analysis.x_modes x) d), true).
 Proof. exact parse_print. Qed.
 Print Assumptions C01_parse_print_partial.
+
+(* ... with the classification generated from the implementation (Gen/CharClass.v) the hypothesis on U is met *)
+Theorem C01_parse_print_shipped :
+  forall (cfg : pcfg) ci yaml_ok find_iq unit_class (x : Analysis.aext) (d : list block) (tp : dtape),
+    doc_ok Gen.CharClass.U cfg d tp = true -> adoc_ok ci find_iq unit_class x d = true ->
+    ParseTotal.parse_model Gen.CharClass.U cfg ci yaml_ok find_iq unit_class x (print_doc d tp)
+    = Done (Some (denote ci find_iq (Analysis.x_inline x) (Analysis.x_modes x) d), true).
+Proof. intros cfg ci yaml_ok find_iq unit_class x d tp. exact (parse_print Gen.CharClass.U cfg ci yaml_ok find_iq unit_class x d tp MaskGen.gen_special_breaks). Qed.
+Print Assumptions C01_parse_print_shipped.
 
 (* ------------------------------------------------------------------ (h) front matter *)
 
@@ -333,6 +393,7 @@ Print Assumptions C01_frontmatter_events_roundtrip.
 Theorem C01_parse_print_frontmatter_partial :
   forall (U : N -> ucls) (cfg : pcfg) ci yaml_ok find_iq unit_class (x : Analysis.aext)
          (y : str) (ft : fmtape) (d : list block) (tp : dtape),
+    (forall c, MaskProofs.special c = true -> is_word_char U c = false /\ is_lex_ws U c = false) ->
     fm_doc_ok U cfg y ft d tp = true -> adoc_ok ci find_iq unit_class x d = true ->
     ParseTotal.parse_model U cfg ci yaml_ok find_iq unit_class x (print_fm_doc y ft d tp)
     = Done (Some (denote ci find_iq (Analysis.x_inline x) (Analysis.x_modes x) d), yaml_ok y).
@@ -353,21 +414,15 @@ Proof.
 Qed.
 Print Assumptions C01_metadata_frontmatter.
 
-(* the full statement: a denotation [den] that agrees with [denote] on [adoc_ok] and is returned for every
-   printed document ([denote] itself is the candidate: it states the text-mode reading too; what is missing is
-   the proof for documents that switch to text mode); with and without front matter *)
-Definition C01_full_statement (den : (str -> str) -> (str -> option (str * str)) -> (str -> N) -> Analysis.aext ->
+(* the full statement: the same for EVERY spelling [s] of the document - [spells s d]: s spells d with the
+   documented syntax, any spacing, wrapping, comments and blank lines, not only those the printer produces - and
+   with the value of every inline quantity ([den] in place of [denote], which counts them) *)
+Definition C01_full_statement (spells : str -> list block -> Prop)
+                              (den : (str -> str) -> (str -> option (str * str)) -> (str -> N) -> Analysis.aext ->
                                      list block -> Analysis.recipe) : Prop :=
-  (forall ci find_iq unit_class x d, adoc_ok ci find_iq unit_class x d = true ->
-     den ci find_iq unit_class x d = denote ci find_iq (Analysis.x_inline x) (Analysis.x_modes x) d) /\
-  (forall (U : N -> ucls) (cfg : pcfg) ci yaml_ok find_iq unit_class (x : Analysis.aext) (d : list block) (tp : dtape),
-    doc_ok U cfg d tp = true ->
-    ParseTotal.parse_model U cfg ci yaml_ok find_iq unit_class x (print_doc d tp)
-    = Done (Some (den ci find_iq unit_class x d), true)) /\
-  (forall (U : N -> ucls) (cfg : pcfg) ci yaml_ok find_iq unit_class (x : Analysis.aext) y ft (d : list block) (tp : dtape),
-    fm_doc_ok U cfg y ft d tp = true ->
-    ParseTotal.parse_model U cfg ci yaml_ok find_iq unit_class x (print_fm_doc y ft d tp)
-    = Done (Some (den ci find_iq unit_class x d), yaml_ok y)).
+  forall (U : N -> ucls) (cfg : pcfg) ci yaml_ok find_iq unit_class (x : Analysis.aext) (d : list block) (s : str),
+    spells s d -> adoc_ok ci find_iq unit_class x d = true ->
+    ParseTotal.parse_model U cfg ci yaml_ok find_iq unit_class x s = Done (Some (den ci find_iq unit_class x d), true).
 
 (* The metadata map (Model/MetaMap.v: the collector projected on content.metadata.map; serde_yaml values are
    an oracle type Y with [ystr] = Value::String and the key equality [yeqb]): for every printed document it is
@@ -580,7 +635,7 @@ Proof.
   assert (H1 : doc_ok Ug cfg_all doc4 tape4 = true) by (vm_compute; reflexivity).
   assert (H2 : adoc_ok ufold (fun _ => None) uclass x_all doc4 = true) by (vm_compute; reflexivity).
   split; [exact H1|]. split; [exact H2|]. split; [vm_compute; reflexivity|]. split; [vm_compute; reflexivity|].
-  exact (C01_parse_print_partial Ug cfg_all ufold (fun _ => true) (fun _ => None) uclass x_all doc4 tape4 H1 H2).
+  exact (C01_parse_print_shipped cfg_all ufold (fun _ => true) (fun _ => None) uclass x_all doc4 tape4 H1 H2).
 Qed.
 
 (* the values the denotation of doc4 holds (`@salt{1%g}`, `~{5%min}`), and what a decimal, a mixed number and a
@@ -723,12 +778,12 @@ Proof.
   assert (H2 : adoc_ok ufold (fun _ => None) uclass x_all doc7 = true) by (vm_compute; reflexivity).
   split; [exact H1|]. split; [exact H2|]. split; [vm_compute; reflexivity|]. split; [vm_compute; reflexivity|].
   split; [vm_compute; reflexivity|].
-  exact (C01_parse_print_partial Ug cfg_all ufold (fun _ => true) (fun _ => None) uclass x_all doc7 tape7 H1 H2).
+  exact (C01_parse_print_shipped cfg_all ufold (fun _ => true) (fun _ => None) uclass x_all doc7 tape7 H1 H2).
 Qed.
 
-(* the text-mode reading of [denote] (outside the class proved): `>> [mode]: text` then
-   `Take @salt{1[- c -]%g} now.` is one text block holding the step as written, the comment left out, and no
-   table entry.  The implementation returns that text (same replay) *)
+(* text mode: `>> [mode]: text` then `Take @salt{1[- -]%g} now.` is one text block holding the step as written,
+   the comment left out, and no table entry; the document is in the class, so this is what the pipeline model
+   returns for the printed text.  The implementation returns that text (same replay) *)
 Definition c_salt_cm : cspec :=
   {| cs_kind := CIgr; cs_mods := []; cs_name := salt; cs_alias := None;
      cs_body := BQty {| qs_val := QNum (SInt [49]); qs_lock := false; qs_unit := Some [wd [103]] |}
@@ -738,12 +793,21 @@ Definition c_salt_cm : cspec :=
 Definition doc8 : list block :=
   [BkMeta k_mode [sp; wd [116; 101; 120; 116]];
    BkStep [IText [wd [84; 97; 107; 101]; sp]; IComp c_salt_cm; IText [sp; wd [110; 111; 119]; dot]]].
-Example C01_text_mode_reading :
-  doc_ok Ug cfg_all doc8 tape7 = true /\
+Example C01_text_mode_example :
+  doc_ok Ug cfg_all doc8 tape7 = true /\ adoc_ok ufold (fun _ => None) uclass x_all doc8 = true /\
+  text_reached true doc8 mode0 = true /\
   unlex (print_block (BkStep [IText [wd [84; 97; 107; 101]; sp]; IComp c_salt_cm; IText [sp; wd [110; 111; 119]; dot]]))
   = [84; 97; 107; 101; 32; 64; 115; 97; 108; 116; 123; 49; 91; 45; 32; 45; 93; 37; 103; 125; 32; 110; 111; 119; 46] /\
   denote ufold (fun _ => None) true true doc8
   = {| Analysis.r_sections := [{| Analysis.sec_name := None;
                                   Analysis.sec_content := [Analysis.CText [84; 97; 107; 101; 32; 64; 115; 97; 108; 116; 123; 49; 37; 103; 125; 32; 110; 111; 119; 46]] |}];
-       Analysis.r_ingredients := []; Analysis.r_cookware := []; Analysis.r_timers := []; Analysis.r_inline := 0 |}.
-Proof. vm_compute. repeat split. Qed.
+       Analysis.r_ingredients := []; Analysis.r_cookware := []; Analysis.r_timers := []; Analysis.r_inline := 0 |} /\
+  ParseTotal.parse_model Ug cfg_all ufold (fun _ => true) (fun _ => None) uclass x_all (print_doc doc8 tape7)
+  = Done (Some (denote ufold (fun _ => None) true true doc8), true).
+Proof.
+  assert (H1 : doc_ok Ug cfg_all doc8 tape7 = true) by (vm_compute; reflexivity).
+  assert (H2 : adoc_ok ufold (fun _ => None) uclass x_all doc8 = true) by (vm_compute; reflexivity).
+  split; [exact H1|]. split; [exact H2|]. split; [vm_compute; reflexivity|]. split; [vm_compute; reflexivity|].
+  split; [vm_compute; reflexivity|].
+  exact (C01_parse_print_shipped cfg_all ufold (fun _ => true) (fun _ => None) uclass x_all doc8 tape7 H1 H2).
+Qed.
